@@ -54,6 +54,13 @@ type gate struct {
 	waiting int32
 	handled int32
 	tokens  chan struct{}
+	// inside the watcher's critical section: after the watch update ("inner") and after the rescan
+	// ("tail"), so that file-system operations can be placed between the two halves and before the unlock
+	holdInner, holdTail int32
+	atInner, atTail     int32
+	exits               int32
+	handlerGoid         int64
+	inner, tail         chan struct{}
 }
 
 var gates sync.Map // *sync.Mutex -> *gate
@@ -71,6 +78,7 @@ type autoRecorder struct {
 	stopped bool
 	nstart  int
 	gor     map[int64]int // goroutine id -> index of the watcher it was started with
+	handler int64         // goroutine id of the watcher goroutine inside its critical section
 }
 
 var recorders sync.Map // *sync.Mutex -> *autoRecorder
@@ -174,13 +182,32 @@ func recordHook(point string, a []interface{}) {
 		r.mu.Unlock()
 		d, n := r.dirID(a[1].(string))
 		r.log(map[string]interface{}{"ev": "recv", "w": w, "d": d, "n": n, "op": opKind(a[2].(string))})
+	case "watch.updated":
+		r.mu.Lock()
+		w := r.gor[goid()]
+		r.handler = goid()
+		r.mu.Unlock()
+		if c, ok := recCaches.Load(key); ok {
+			r.log(map[string]interface{}{"ev": "updated", "w": w, "st": r.snapshot(c.(*cdi.Cache))})
+		}
+	case "watch.locked":
+		r.mu.Lock()
+		r.handler = goid()
+		r.mu.Unlock()
+	case "refresh.done":
+		// the rescan of the watcher goroutine (queries and Configure log their own entries)
+		r.mu.Lock()
+		w, mine := r.gor[goid()], r.handler == goid()
+		r.mu.Unlock()
+		if mine {
+			r.log(map[string]interface{}{"ev": "scanned", "w": w, "st": r.snapshot(cache)})
+		}
 	case "watch.handled":
 		r.mu.Lock()
 		w := r.gor[goid()]
+		r.handler = 0
 		r.mu.Unlock()
-		if c, ok := recCaches.Load(key); ok {
-			r.log(map[string]interface{}{"ev": "handled", "w": w, "st": r.snapshot(c.(*cdi.Cache))})
-		}
+		r.log(map[string]interface{}{"ev": "handled", "w": w})
 	case "op":
 		name := a[1].(string)
 		if name == "Configure" {
@@ -209,15 +236,34 @@ func installWatchHook() {
 				return
 			}
 			recordHook(point, a)
-			if point != "watch.prelock" && point != "watch.handled" {
+			var key interface{} = a[0]
+			if c, ok := a[0].(*cdi.Cache); ok {
+				key = &c.Mutex
+			}
+			gv, ok := gates.Load(key)
+			if !ok {
 				return
 			}
-			if g, ok := gates.Load(a[0]); ok {
-				g := g.(*gate)
-				if point == "watch.handled" {
-					atomic.AddInt32(&g.handled, 1)
-					return
+			g := gv.(*gate)
+			switch point {
+			case "watch.handled":
+				atomic.StoreInt64(&g.handlerGoid, 0)
+				atomic.AddInt32(&g.handled, 1)
+			case "watch.exit":
+				atomic.AddInt32(&g.exits, 1)
+			case "watch.locked":
+				atomic.StoreInt64(&g.handlerGoid, goid())
+			case "watch.updated":
+				if atomic.LoadInt32(&g.holdInner) == 1 {
+					atomic.AddInt32(&g.atInner, 1)
+					<-g.inner
 				}
+			case "refresh.done":
+				if atomic.LoadInt32(&g.holdTail) == 1 && atomic.LoadInt64(&g.handlerGoid) == goid() {
+					atomic.AddInt32(&g.atTail, 1)
+					<-g.tail
+				}
+			case "watch.prelock":
 				if atomic.LoadInt32(&g.closed) == 1 {
 					atomic.AddInt32(&g.waiting, 1)
 					<-g.tokens
@@ -245,7 +291,96 @@ func (g *gate) releaseOne(wait time.Duration) bool {
 	return true
 }
 
+// stepIn lets one waiting goroutine take the mutex and run up to the point after its watch update
+// (returns "inner"), or to the end if it does not get there (a replaced watcher: "")
+func (g *gate) stepIn(wait time.Duration) string {
+	deadline := time.Now().Add(wait)
+	for atomic.LoadInt32(&g.waiting) == 0 {
+		if time.Now().After(deadline) {
+			return ""
+		}
+		time.Sleep(time.Millisecond)
+	}
+	i0, h0, e0 := atomic.LoadInt32(&g.atInner), atomic.LoadInt32(&g.handled), atomic.LoadInt32(&g.exits)
+	atomic.StoreInt32(&g.holdInner, 1)
+	g.tokens <- struct{}{}
+	for end := time.Now().Add(2 * time.Second); time.Now().Before(end); time.Sleep(200 * time.Microsecond) {
+		if atomic.LoadInt32(&g.atInner) != i0 {
+			return "inner"
+		}
+		if atomic.LoadInt32(&g.handled) != h0 || atomic.LoadInt32(&g.exits) != e0 {
+			break
+		}
+	}
+	atomic.StoreInt32(&g.holdInner, 0)
+	g.drain()
+	return ""
+}
+
+// drain lets pass whatever reached a parking point that is no longer in use (a step that timed out,
+// code that visits the points in another order): nothing may stay parked with the cache lock held
+func (g *gate) drain() {
+	if atomic.LoadInt32(&g.holdInner) == 0 {
+		select {
+		case g.inner <- struct{}{}:
+		default:
+		}
+	}
+	if atomic.LoadInt32(&g.holdTail) == 0 {
+		select {
+		case g.tail <- struct{}{}:
+		default:
+		}
+	}
+}
+
+// stepScan lets the goroutine parked after its watch update rescan; it parks again before the unlock ("tail")
+func (g *gate) stepScan() string {
+	t0, h0 := atomic.LoadInt32(&g.atTail), atomic.LoadInt32(&g.handled)
+	atomic.StoreInt32(&g.holdTail, 1)
+	atomic.StoreInt32(&g.holdInner, 0)
+	g.inner <- struct{}{}
+	for end := time.Now().Add(2 * time.Second); time.Now().Before(end); time.Sleep(200 * time.Microsecond) {
+		if atomic.LoadInt32(&g.atTail) != t0 {
+			return "tail"
+		}
+		if atomic.LoadInt32(&g.handled) != h0 {
+			break
+		}
+	}
+	atomic.StoreInt32(&g.holdTail, 0)
+	g.drain()
+	return ""
+}
+
+// leave releases whatever is parked inside the critical section and waits for its end
+func (g *gate) leave(cs string) {
+	h0 := atomic.LoadInt32(&g.handled)
+	atomic.StoreInt32(&g.holdInner, 0)
+	atomic.StoreInt32(&g.holdTail, 0)
+	switch cs {
+	case "inner":
+		g.inner <- struct{}{}
+	case "tail":
+		g.tail <- struct{}{}
+	default:
+		return
+	}
+	for end := time.Now().Add(2 * time.Second); atomic.LoadInt32(&g.handled) == h0 && time.Now().Before(end); {
+		time.Sleep(200 * time.Microsecond)
+	}
+}
+
 func (g *gate) open() {
+	atomic.StoreInt32(&g.holdInner, 0)
+	atomic.StoreInt32(&g.holdTail, 0)
+	for k := 0; k < 4; k++ {
+		select {
+		case g.inner <- struct{}{}:
+		case g.tail <- struct{}{}:
+		default:
+		}
+	}
 	atomic.StoreInt32(&g.closed, 0)
 	for atomic.LoadInt32(&g.waiting) > 0 {
 		select {
@@ -418,7 +553,7 @@ func runAutoOnce(row *autoRow, pacing int, r *rand.Rand, bad bool, rec *autoReco
 	// the recorder has to be in place before the cache starts its watcher goroutine: NewCache is
 	// split into a manual-mode creation and a Configure that switches auto-refresh on
 	cache, _ := cdi.NewCache(cdi.WithSpecDirs(w.paths(dirs)...), cdi.WithAutoRefresh(rec == nil))
-	g := &gate{tokens: make(chan struct{})}
+	g := &gate{tokens: make(chan struct{}), inner: make(chan struct{}), tail: make(chan struct{})}
 	gates.Store(&cache.Mutex, g)
 	if rec != nil {
 		rec.w, rec.gor = w, map[int64]int{}
@@ -446,7 +581,16 @@ func runAutoOnce(row *autoRow, pacing int, r *rand.Rand, bad bool, rec *autoReco
 	}
 	nq := 0
 	lastQuery := false
+	cs := "" // where the watcher goroutine is parked inside its critical section: "", "inner", "tail"
+	defer func() { g.leave(cs) }()
 	for _, a := range row.Hist[1:] {
+		if cs == "" {
+			g.drain()
+		}
+		if cs != "" && !isFsOp(a.A) && a.A != "scan" && (a.A == "query" || a.A == "configure" || a.A == "handle") {
+			g.leave(cs) // these wait for the mutex
+			cs = ""
+		}
 		switch a.A {
 		case "query":
 			if lastQuery && pacing != 1 {
@@ -473,7 +617,11 @@ func runAutoOnce(row *autoRow, pacing int, r *rand.Rand, bad bool, rec *autoReco
 			}
 		case "handle":
 			if pacing == 1 {
-				g.releaseOne(50 * time.Millisecond)
+				cs = g.stepIn(50 * time.Millisecond)
+			}
+		case "scan":
+			if pacing == 1 && cs == "inner" {
+				cs = g.stepScan()
 			}
 		case "configure":
 			if pacing == 1 {
@@ -486,7 +634,12 @@ func runAutoOnce(row *autoRow, pacing int, r *rand.Rand, bad bool, rec *autoReco
 		case "shortage":
 		default:
 			var err error
-			if rec != nil {
+			if rec != nil && cs != "" {
+				// the watcher goroutine is parked inside its critical section: it holds the cache lock for us
+				rec.log(map[string]interface{}{"ev": "fs", "a": a.A, "d": a.D, "n": a.N, "c": a.C})
+				err = w.do(a)
+				rec.log(map[string]interface{}{"ev": "fsdone"})
+			} else if rec != nil {
 				// logged before the system call, both under the cache lock: whatever the operation causes
 				// comes later in the trace, and no scan can fall between the entry and the change
 				cache.Lock()
@@ -508,6 +661,8 @@ func runAutoOnce(row *autoRow, pacing int, r *rand.Rand, bad bool, rec *autoReco
 		}
 		lastQuery = false
 	}
+	g.leave(cs)
+	cs = ""
 	g.open()
 	if rec != nil {
 		// let the released handlers finish, then stop: the polling below is not part of the trace
@@ -639,4 +794,12 @@ func replayAutoMain(args []string) int {
 		return 2
 	}
 	return col.finish(start)
+}
+
+func isFsOp(a string) bool {
+	switch a {
+	case "createwrite", "rewrite", "renamewithin", "movein", "moveout", "removefile", "rmdir", "mkdir", "renamediraway":
+		return true
+	}
+	return false
 }
